@@ -6,7 +6,6 @@ import (
 	"io"
 	"log"
 
-	"github.com/dim13/cobs"
 	"github.com/simpleiot/simpleiot/test"
 )
 
@@ -146,12 +145,32 @@ func (cw *CobsWrapper) Read(b []byte) (int, error) {
 	}
 }
 
+// cobsEncode encodes a slice of bytes to a null-terminated COBS frame
+func cobsEncode(p []byte) []byte {
+	buf := new(bytes.Buffer)
+	writeBlock := func(p []byte) {
+		buf.WriteByte(byte(len(p) + 1))
+		buf.Write(p)
+	}
+	for _, ch := range bytes.Split(p, []byte{0}) {
+		// a run of exactly 254 non-zero bytes still needs a trailing
+		// (empty) block, otherwise a zero following it is lost.
+		for len(ch) >= 0xfe {
+			writeBlock(ch[:0xfe])
+			ch = ch[0xfe:]
+		}
+		writeBlock(ch)
+	}
+	buf.WriteByte(0)
+	return buf.Bytes()
+}
+
 func (cw *CobsWrapper) Write(b []byte) (int, error) {
 	if cw.debug >= 8 {
 		log.Println("SER TX RAW:", test.HexDump(b))
 	}
 
-	w := append([]byte{0}, cobs.Encode(b)...)
+	w := append([]byte{0}, cobsEncode(b)...)
 
 	if cw.debug >= 9 {
 		log.Println("SER TX COBS:", test.HexDump(w))
